@@ -369,6 +369,11 @@ func (p *Parser) resolveDeltas(ofsDeltas, refDeltas []*ObjectHeader) error {
 		if err := p.processDelta(d); err != nil {
 			return fmt.Errorf("processing ref-delta at offset %v: %w", d.Offset, err)
 		}
+		// A delta resolved against an external (thin-pack) base is itself
+		// the base of further in-pack deltas: continue the walk from it.
+		if err := visit(d); err != nil {
+			return err
+		}
 	}
 
 	for _, d := range ofsDeltas {
